@@ -56,11 +56,21 @@ Fixpoint kc_utf8_valid (s : list N) : bool :=
 
 (* ---- progress ------------------------------------------------------------------------------------- *)
 
+Lemma kc_varint_dec_shorter b v r : varint_dec b = Some (v, r) -> (length r < length b)%nat.
+Proof.
+  intros E. destruct (varint_dec_progress _ _ _ E) as [(p & Hb & Hp) _]. subst b. rewrite app_length. lia.
+Qed.
+
+Lemma kc_bytes_dec_shorter b v r : bytes_dec b = Some (v, r) -> (length r < length b)%nat.
+Proof.
+  intros E. destruct (bytes_dec_progress _ _ _ E) as (p & Hb & Hp). subst b. rewrite !app_length. lia.
+Qed.
+
 Lemma kc_tag_dec_progress b num typ r : kc_tag_dec b = Some (num, typ, r) -> (length r < length b)%nat.
 Proof.
   unfold kc_tag_dec. destruct (varint_dec b) as [[v r']|] eqn:E; [|discriminate].
   destruct ((1 <=? v / 8) && (v / 8 <=? kc_max_valid_number) && negb (v mod 8 =? 4)); [|discriminate].
-  intros H. inversion H; subst. exact (varint_dec_progress _ _ _ E).
+  intros H. inversion H; subst. exact (kc_varint_dec_shorter _ _ _ E).
 Qed.
 
 Lemma kc_unknown_shorter {St} (st st' : St) num typ b r : kc_unknown st num typ b = Some (st', r) -> (length r <= length b)%nat.
@@ -73,13 +83,13 @@ Lemma kc_bytes_shorter {St} b (k : list N -> option St) st r : kc_bytes b k = So
 Proof.
   unfold kc_bytes. destruct (bytes_dec b) as [[v r']|] eqn:E; [|discriminate].
   destruct (k v); [|discriminate]. intros H. inversion H; subst.
-  pose proof (bytes_dec_progress _ _ _ E). lia.
+  pose proof (kc_bytes_dec_shorter _ _ _ E). lia.
 Qed.
 
 Lemma kc_varint_shorter {St} b (k : N -> St) st r : kc_varint b k = Some (st, r) -> (length r <= length b)%nat.
 Proof.
   unfold kc_varint. destruct (varint_dec b) as [[v r']|] eqn:E; [|discriminate].
-  intros H. inversion H; subst. pose proof (varint_dec_progress _ _ _ E). lia.
+  intros H. inversion H; subst. pose proof (kc_varint_dec_shorter _ _ _ E). lia.
 Qed.
 
 (* ---- the fields an honest encoder writes are read back -------------------------------------------- *)
